@@ -1,6 +1,6 @@
 (* C08 - Results do not depend on buffer size, peak order or other peaks. *)
 From Coq Require Import ZArith List Permutation.
-From BF Require Import Base.Util Model.Blocks Model.Pipeline Proofs.BlocksP Proofs.PipelineP.
+From BF Require Import Base.Util Model.Blocks Model.Pipeline Proofs.BlocksP Proofs.PipelineP Proofs.ComposeP.
 Open Scope Z_scope.
 
 (* the loop writes, for every number of peaks n >= 0 and every buffer count bc >= 1 (also bc > n, and the
@@ -66,3 +66,19 @@ Theorem C08_full_per_peak : forall one lg fy fx f c mask peaks n bc out0 i, 0 <=
   if inb n i then full_peak one lg fy fx f c mask (peaks i) else out0 i.
 Proof. exact process_frame_full_per_peak. Qed.
 Print Assumptions C08_full_per_peak.
+
+(* reordering / duplicating / subsetting the peak list (any map sigma of positions) and changing the buffer count reorders the
+   results accordingly: entry i of the run on the rearranged list is entry sigma(i) of the run on the original list *)
+Theorem C08_fast_results_follow_the_peak_list : forall one lg fy fx f c mask peaks (sigma : Z -> Z) n bc1 bc2 o1 o2 i,
+  0 <= n -> 1 <= bc1 -> 1 <= bc2 -> 0 <= i < n -> 0 <= sigma i < n ->
+  process_frame_fast_model one lg fy fx f c mask (fun k => peaks (sigma k)) n bc1 o1 i =
+  process_frame_fast_model one lg fy fx f c mask peaks n bc2 o2 (sigma i).
+Proof. exact fast_results_follow_the_peak_list. Qed.
+Print Assumptions C08_fast_results_follow_the_peak_list.
+
+Theorem C08_full_results_follow_the_peak_list : forall one lg fy fx f c mask peaks (sigma : Z -> Z) n bc1 bc2 o1 o2 i,
+  0 <= n -> 1 <= bc1 -> 1 <= bc2 -> 0 <= i < n -> 0 <= sigma i < n ->
+  process_frame_full_model one lg fy fx f c mask (fun k => peaks (sigma k)) n bc1 o1 i =
+  process_frame_full_model one lg fy fx f c mask peaks n bc2 o2 (sigma i).
+Proof. exact full_results_follow_the_peak_list. Qed.
+Print Assumptions C08_full_results_follow_the_peak_list.
